@@ -129,6 +129,13 @@ def _encodable(s):
 
 def exhaustive(tier):
     node = {"kind": "int", "req": False, "validator": None, "opts": {"min": 0, "max": 100}, "default": {"mode": "none"}}
+    # a field whose own validator rejects the variable's value - with an exception type of its own choosing
+    odd = {"kind": "int", "req": False, "validator": "v_not7", "opts": {}, "default": {"mode": "none"}}
+    for levels in ([True], [True, None], ["CCVAPP", None, None]):
+        for fenv in (None, True, "CCV_NAMED"):
+            for var in ("7", "8"):
+                yield {"levels": list(levels), "fenv": fenv, "node": odd, "var": var, "var2": "7" if var == "8" else "9", "sibling_var": None, "decl": "explicit",
+                       "ops": [{"op": "load_tree", "value": 3, "with_sibling": True}]}
     for depth in (1, 2, 3):
         for levels in itertools.product(SCHEMA_ENVS, repeat=depth):
             for fenv in FIELD_ENVS:
